@@ -458,6 +458,11 @@ def check_c18(out, tier):
     out.add_l1("MC_ShaperApi/MC_C18_%s.cfg" % tier, r)
     for inv in r["violated"]:
         out.violation("L1.%s" % inv, {"model": "MC_ShaperApi"}, r["out"][-1500:])
+    # call histories of any length: the log is a history variable hidden behind a VIEW, the remaining state space is finite
+    r = tlc.check_model("MC_ShaperApi", "MC_C18_unbounded.cfg", workers=4, timeout=900)
+    out.add_l1("MC_ShaperApi/MC_C18_unbounded.cfg", r)
+    for inv in r["violated"]:
+        out.violation("L1.%s" % inv, {"model": "MC_ShaperApi"}, r["out"][-1500:])
     seqs = sequences(tier, rnd)
     results = runner.run_many(_run_sequence, seqs, chunk=20)
     traces = []
